@@ -278,7 +278,11 @@ def run_job(job):
         return run_split(job)
     if job['kind'] == 'showdown':
         from .c02 import PotsMonitor, real_strength_hb
-        r, ctx = sx.run(job, [PotsMonitor('C11', strength=real_strength_hb)], validated='terminals_compared')
+        from .c12 import MuckMonitor
+        job = dict(job, real='hole+board')
+        # the pots as pushed (layered reference award) and, separately, as they would be with every hand tabled: a hand that
+        # wins a half on one board must not be discarded for having nothing on another
+        r, ctx = sx.run(job, [PotsMonitor('C11', strength=real_strength_hb), MuckMonitor('C11')], validated='terminals_compared')
         return r
     spec = table_spec(job['cls'], 2, 4)
     mon = BettingMonitor('C11', spec=spec)
